@@ -139,59 +139,50 @@ Example diag_req_examples :
   zaggregator (Some [2; 3]%nat) 2 [[0; 1]; [1; 2]; [0; 1]; [1; 2]]%nat [1; 4; 5; 2]%Z RMean = Some (mkSp [2; 3]%nat [[0; 1]; [1; 2]]%nat [3; 3]%Z).
 Proof. vm_compute. repeat split; reflexivity. Qed.
 
-(* ================================================================ the proposed repair of finding A-46 *)
+(* ================================================================ the repair of finding A-46 (/repo bc5da93) *)
 From Coq Require Import Sorting.Sorted.
 
-Lemma dedup_first_NoDup l : NoDup (dedup_first l).
-Proof. unfold dedup_first. apply NoDup_rev, dedup_NoDup. Qed.
-Lemma dedup_first_In i l : In i (dedup_first l) <-> In i l.
-Proof. unfold dedup_first. rewrite <- in_rev, dedup_In, <- in_rev. tauto. Qed.
-
-(* sptensor.from_function with the union fallback, the draws as inputs:
-   - whenever the loop as coded ends with enough distinct rows the result is EXACTLY the one of the code as it stands
-     (so every seeded output that reaches the request today is unchanged, and the same draws are consumed);
+(* sptensor.from_function with the union fallback (C20Gen.sprand_subs), the draws as inputs:
+   - whenever the loop ends with enough distinct rows the result is EXACTLY the loop's last candidate, as before the
+     repair (so every seeded output that reached the request then is unchanged, and the same draws are consumed);
    - otherwise the result holds min(request, number of distinct rows over ALL consumed draws) rows, each of them a row
-     of some consumed draw;
+     of some consumed draw - never fewer than the loop's last candidate alone;
    - always strictly ascending; well-formed (distinct, inside the shape) for valid draws *)
 Theorem sprand_union_spec (nz : nat) (s : shape) (draws : list (list (list Z))) :
   let r := redraw 10 nz s [] draws in
   let pool := pool_rows s (firstn (snd r) draws) in
-  (nz <= length (fst r) -> sprand_subs_union nz s draws = sprand_subs nz s draws)%nat /\
+  (nz <= length (fst r) -> sprand_subs nz s draws = sprand_loop_subs nz s draws)%nat /\
   (length (fst r) < nz ->
-     length (sprand_subs_union nz s draws) = Nat.min nz (length (dedup_first pool)) /\
-     (forall i, In i (sprand_subs_union nz s draws) -> In i pool))%nat /\
-  StronglySorted idx_lt (sprand_subs_union nz s draws) /\
-  (Forall (fun d => 0 < d)%nat s -> Forall (valid_draw s) draws -> good s (sprand_subs_union nz s draws)).
+     length (sprand_subs nz s draws) = Nat.min nz (length (dedup pool)) /\
+     (forall i, In i (sprand_subs nz s draws) -> In i pool))%nat /\
+  (length (sprand_loop_subs nz s draws) <= length (sprand_subs nz s draws))%nat /\
+  StronglySorted idx_lt (sprand_subs nz s draws) /\
+  (Forall (fun d => 0 < d) s -> Forall (valid_draw s) draws -> good s (sprand_subs nz s draws))%nat.
 Proof.
-  intros r pool. unfold sprand_subs_union. fold r. fold pool.
-  destruct (length (fst r) <? nz)%nat eqn:E.
-  - apply Nat.ltb_lt in E. split; [intros; lia|]. split; [|split].
-    + intros _. split.
-      * rewrite unique_rows_length.
-        rewrite dedup_NoDup_id.
-        apply firstn_length.
-        apply NoDup_firstn. apply dedup_first_NoDup.
-      * intros i Hi. apply (proj1 (unique_rows_In _ _)) in Hi. apply In_firstn in Hi. exact (proj1 (dedup_first_In _ _) Hi).
-    + apply unique_rows_sorted.
-    + intros Hs Hd. split; [apply unique_rows_NoDup|]. rewrite Forall_forall. intros i Hi.
-      apply (proj1 (unique_rows_In _ _)) in Hi. apply In_firstn in Hi. apply (proj1 (dedup_first_In _ _)) in Hi.
-      unfold pool, pool_rows in Hi. apply in_flat_map in Hi as (d & Hd1 & Hd2). apply in_map_iff in Hd2 as (row & <- & Hrow).
-      apply In_firstn in Hd1. rewrite Forall_forall in Hd. specialize (Hd d Hd1). unfold valid_draw in Hd.
-      rewrite Forall_forall in Hd. apply inb_scale_row; auto.
-  - apply Nat.ltb_ge in E. split; [reflexivity|]. split; [intros; lia|]. split; [apply sprand_sorted|].
-    intros Hs Hd. destruct (redraw_good 10 nz s [] draws Hs Hd) as [Hn Hb]; [split; constructor|]. fold r in Hn, Hb.
-    split; [now apply NoDup_firstn|]. rewrite Forall_forall in *. intros i Hi. apply In_firstn in Hi. auto.
+  intros r pool.
+  pose proof (sprand_count nz s draws) as (Hc & _ & _). unfold sprand_consumed in Hc. cbv zeta in Hc. fold r in Hc. fold pool in Hc.
+  split; [|split; [|split; [|split; [apply sprand_sorted|apply sprand_subs_good]]]].
+  - intros H. unfold sprand_subs. cbv zeta. fold r. apply Nat.ltb_ge in H. now rewrite H.
+  - intros H. split; [exact Hc|]. intros i. unfold sprand_subs. cbv zeta. fold r. fold pool.
+    apply Nat.ltb_lt in H. rewrite H. intros Hi. apply (proj1 (unique_rows_In _ _)) in Hi. apply In_firstn in Hi.
+    exact (proj1 (dedup_first_In _ _) Hi).
+  - rewrite Hc. unfold sprand_loop_subs. fold r. rewrite firstn_length.
+    assert (length (fst r) <= length (dedup pool))%nat; [|lia].
+    destruct (redraw_origin 10 nz s [] draws) as [E|(d & Hin & E)]; fold r in E; [rewrite E; cbn; lia|].
+    fold r in Hin. rewrite E. apply dedup_length_incl; [apply unique_rows_NoDup|].
+    intros i Hi. apply (proj1 (unique_rows_In _ _)) in Hi. unfold pool, pool_rows. apply in_flat_map. exists d. split; auto.
 Qed.
 
-(* ten draws that each repeat a row, but not the same row: the code as it stands ends one short, the fallback reaches
-   the request; ten draws that all hit ONE row stay short under the fallback too (the request cannot be guaranteed by
-   any bounded number of draws with replacement) *)
+(* ten draws that each repeat a row, but not the same row: the loop alone ends one short (the pre-repair result), the
+   fallback reaches the request; ten draws that all hit ONE row stay short under the fallback too (the request cannot be
+   guaranteed by any bounded number of draws with replacement); a stream whose first draw is distinct is untouched *)
 Example sprand_union_example :
   let h := (2 ^ 52)%Z in
   let da := [[0; h]; [1; h + 5]]%Z in let db := [[h; h]; [h + 1; h + 3]]%Z in
   let ds := [da; db; da; db; da; db; da; db; da; db] in
-  sprand_subs 2 [2; 3]%nat ds = [[1; 1]]%nat /\ sprand_subs_union 2 [2; 3]%nat ds = [[0; 1]; [1; 1]]%nat /\
+  sprand_loop_subs 2 [2; 3]%nat ds = [[1; 1]]%nat /\ sprand_subs 2 [2; 3]%nat ds = [[0; 1]; [1; 1]]%nat /\
   sprand_consumed 2 [2; 3]%nat ds = 10%nat /\
-  sprand_subs_union 2 [2; 3]%nat (repeat da 10) = [[0; 1]]%nat /\
-  sprand_subs_union 2 [2; 3]%nat ([[0; h]; [h; 7]]%Z :: ds) = sprand_subs 2 [2; 3]%nat ([[0; h]; [h; 7]]%Z :: ds).
+  sprand_subs 2 [2; 3]%nat (repeat da 10) = [[0; 1]]%nat /\
+  sprand_subs 2 [2; 3]%nat ([[0; h]; [h; 7]]%Z :: ds) = sprand_loop_subs 2 [2; 3]%nat ([[0; h]; [h; 7]]%Z :: ds) /\
+  sprand_subs 2 [2; 3]%nat ([[0; h]; [h; 7]]%Z :: ds) = [[0; 1]; [1; 0]]%nat.
 Proof. vm_compute. repeat split; reflexivity. Qed.
